@@ -481,9 +481,9 @@ func evaluate(c Case) (vev.Outcome, error) {
 // generators
 
 var (
-	compNames  = []string{"VCALENDAR", "VEVENT", "VTODO", "VALARM", "VJOURNAL", "VFREEBUSY", "X-COMP"}
-	propNames  = []string{"SUMMARY", "DTSTART", "ATTENDEE", "X-A", "UID", "DESCRIPTION", "X-É"}
-	paramNames = []string{"PARTSTAT", "CN", "X-P", "TZID"}
+	compNames  = []string{"VCALENDAR", "VEVENT", "VTODO", "VALARM", "VJOURNAL", "VFREEBUSY", "X-COMP", "vevent", "Valarm"} // lower and mixed case: names cross unaltered
+	propNames  = []string{"SUMMARY", "DTSTART", "ATTENDEE", "X-A", "UID", "DESCRIPTION", "X-É", "summary", "X-Apple-Thing"}
+	paramNames = []string{"PARTSTAT", "CN", "X-P", "TZID", "cn", "Partstat"}
 )
 
 func genText() *rapid.Generator[string] {
